@@ -567,19 +567,20 @@ Proof.
   destruct (_ && _); [discriminate|]. destruct (rev rd); discriminate.
 Qed.
 
-Definition clamp_res (x : res Z) : res nat := match x with Ok z => Ok (Z.to_nat z) | Err e => Err e end.
+(* what the walk makes of the counter's value: refused when negative and the guard is there, else the natural number *)
+Definition count_res (x : res Z) : res nat := match x with Ok z => count_of_int z | Err e => Err e end.
 
-Lemma dcountp_zoned_zcount bs : dcountp_zoned bs = clamp_res (zcount_zoned bs).
+Lemma dcountp_zoned_zcount bs : dcountp_zoned bs = count_res (zcount_zoned bs).
 Proof.
-  unfold dcountp_zoned, zcount_zoned, count_of_pyval, zcount_of_pyval, clamp_res.
+  unfold dcountp_zoned, zcount_zoned, count_of_pyval, zcount_of_pyval, count_res.
   assert (E : unpack 11%N (counter_pic bs) bs = unpack_zoned (counter_pic bs) bs) by reflexivity. rewrite E.
   destruct (unpack_zoned (counter_pic bs) bs) as [[d|z|s]|ex] eqn:U; try reflexivity.
   exfalso. exact (unpack_zoned_not_str _ _ _ U).
 Qed.
 
-Lemma dcountp_packed_zcount bs : dcountp_packed bs = clamp_res (zcount_packed bs).
+Lemma dcountp_packed_zcount bs : dcountp_packed bs = count_res (zcount_packed bs).
 Proof.
-  unfold dcountp_packed, zcount_packed, count_of_pyval, zcount_of_pyval, clamp_res, packed_pic.
+  unfold dcountp_packed, zcount_packed, count_of_pyval, zcount_of_pyval, count_res, packed_pic.
   assert (E : unpack 8%N (mkpic false (2 * length bs - 1) 0) bs = unpack_packed_dec (mkpic true (2 * length bs - 1) 0) bs) by reflexivity.
   assert (E' : unpack 8%N (mkpic true (2 * length bs - 1) 0) bs = unpack_packed_dec (mkpic true (2 * length bs - 1) 0) bs) by reflexivity.
   rewrite E, E'.
@@ -605,9 +606,13 @@ Lemma s94_comp_counter :
 Proof. exact (conj (proj1 s94_comp_width) s94_comp_counter_raises). Qed.
 
 Lemma partial_decoders (bs : list N) :
-  dcountp_zoned bs = match zcount_zoned bs with Ok z => Ok (Z.to_nat z) | Err e => Err e end
-  /\ dcountp_packed bs = match zcount_packed bs with Ok z => Ok (Z.to_nat z) | Err e => Err e end.
+  dcountp_zoned bs = match zcount_zoned bs with Ok z => count_of_int z | Err e => Err e end
+  /\ dcountp_packed bs = match zcount_packed bs with Ok z => count_of_int z | Err e => Err e end.
 Proof. exact (conj (dcountp_zoned_zcount bs) (dcountp_packed_zcount bs)). Qed.
+
+(* under the guard as the source has it now: a negative value is refused with ValueError, as the walk does *)
+Lemma count_of_int_now z : count_of_int z = if (z <? 0)%Z then Err ValueError else Ok (Z.to_nat z).
+Proof. reflexivity. Qed.
 
 Definition layout_conclusion (dc : list N -> nat) (r : list N) (e : env) (t : item) : Prop :=
   exists v0, nav_of dc r (build t) = Ok v0
